@@ -363,6 +363,7 @@ end Fuel
 section Path
 variable {P F : Type} [Scalar P] [Scalar F] [Cvt P F] [Trig F] [Trig P]
 
+omit [Scalar F] [Cvt P F] [Trig F] [Trig P] in
 /-- **`approximate_catmull` cannot panic** on a non-empty list: `points.len() - 1` does not underflow, `points[0]`
 exists, every later read is a `get(i)` with a fallback. -/
 theorem approximateCatmull_ok (points : List (Pos P)) (h : 1 ≤ points.length) :
@@ -373,6 +374,7 @@ theorem approximateCatmull_ok (points : List (Pos P)) (h : 1 ≤ points.length) 
   · rw [usub_eq _ _ h, Outcome.ok_bind, getI_eq _ _ (by omega), Outcome.ok_bind]
     exact ⟨_, rfl⟩
 
+omit [Scalar P] [Cvt P F] [Trig P] in
 theorem thetaLoop_safe (fuel : Nat) : ∀ (te ts : F), Safe (fun _ => True) (thetaLoop fuel te ts) := by
   induction fuel with
   | zero => intro te ts; unfold thetaLoop; split <;> first | rfl | exact True.intro
@@ -383,6 +385,7 @@ theorem thetaLoop_safe (fuel : Nat) : ∀ (te ts : F), Safe (fun _ => True) (the
     · exact ih _ _
     · exact True.intro
 
+omit [Trig P] in
 theorem circularArcProperties_safe (fuel : Nat) (a b c : Pos P) :
     Safe (fun _ => True) (circularArcProperties (F := F) fuel a b c) := by
   unfold circularArcProperties
@@ -393,6 +396,7 @@ theorem circularArcProperties_safe (fuel : Nat) (a b c : Pos P) :
     intro te _
     split <;> exact True.intro
 
+omit [Trig F] in
 theorem arcSubPoints_ge_two (pr : ArcProps P F) : 2 ≤ arcSubPoints pr := by
   unfold arcSubPoints
   split
@@ -448,6 +452,7 @@ theorem calculateSubpath_safe (fuel : Nat) (mode : GameMode) (seg : List (Pos P)
     · simp only [Outcome.pure_eq_ok, Outcome.ok_bind]
       exact hbez
 
+omit [Scalar F] [Cvt P F] [Trig F] [Trig P] in
 /-- **the joint de-duplication cannot panic**: `path[path_len - 1]` is read only when `path_len ≥ 1` and
 `path.get(path_len)` is `Some`. -/
 theorem dedupJoint_ok (path : List (Pos P)) (n : Nat) : ∃ r, dedupJoint path n = .ok r := by
